@@ -141,6 +141,8 @@ type DB struct {
 	opts     *zenodb.DBOpts
 	Timeout  time.Duration
 	TimedOut bool
+	// CloseHung: the last Close did not return (the instance was abandoned)
+	CloseHung bool
 }
 
 func (d *DB) schema() zenodb.Schema {
@@ -410,7 +412,18 @@ func (d *DB) FlushAll() {
 func (d *DB) Close() {
 	if d.Z != nil {
 		d.Now = zenodb.VerifNow(d.Z)
-		d.Z.Close()
+		// Close can hang for good if an insert is still in flight (the table's
+		// insert goroutine blocks on a row store that has already stopped; see
+		// DESIGN.md, incidental findings): do not let that take the worker down.
+		z := d.Z
+		done := make(chan struct{})
+		go func() { z.Close(); close(done) }()
+		select {
+		case <-done:
+		case <-time.After(20 * time.Second):
+			d.TimedOut = true
+			d.CloseHung = true
+		}
 		zenodb.VerifForget(d.Z)
 		d.Z = nil
 	}
